@@ -36,9 +36,11 @@ Proof. exact renew_formula_ok. Qed.
 Print Assumptions C19_formula_recognised.
 
 Example C19_interval_ex :
-  interval 11 = 10 ∧ interval 30 = 10 ∧ interval 31 = 10 ∧ interval 45 = 15 ∧ interval 90 = 60 ∧ interval 5 = 10 ∧
-  cs_crashed (run cc_auto [ILock la 5 1; IAdvance (10 * second)]) = Some (CrRenewFailed 0).
-Proof. vm_compute. repeat split; reflexivity. Qed.
+  (let T := client_MinRenewSeconds + 35 in client_MinRenewSeconds < T ∧ 0 < interval T ∧ interval T < T) ∧
+  (let T := client_MinRenewSeconds + 1 in 0 < interval T ∧ interval T < T) ∧
+  client_MinRenewSeconds ≤ interval client_MinRenewSeconds ∧
+  cs_crashed (run cc_auto short_witness) = Some (CrRenewFailed 0).
+Proof. vm_compute. repeat split; congruence. Qed.
 
 (** ** A renewed hold never expires *)
 
@@ -157,7 +159,7 @@ Theorem C19_multi_holds_outside : ∀ cc sched,
 Proof. exact multi_holds_outside. Qed.
 Print Assumptions C19_multi_holds_outside.
 
-(** the hypotheses are satisfiable together on a non-trivial run: three holds with timeouts 11, 90, 31 on different names, a
+(** the hypotheses are satisfiable together on a non-trivial run: three holds with timeouts MinRenewSeconds + 1, + 80, + 21 (11, 90, 31) on different names, a
     Renew kept 300 ms before and 200 ms after the server, 600 s of idle time, one hold unlocked while its renewer sleeps *)
 Example C19_multi_ex :
   wf_sched cc_auto good_witness = true ∧
